@@ -11,11 +11,14 @@ Clauses
   c07-accept-order            an accept completed with the connection of a SYN that arrived later than another
                               SYN still waiting (and not reset by a close in between) at that acceptor
   c07-accept-duplicate        the connection of one SYN was handed to two accepts
+  c07-accept-stale            an accept called after a close()/open() of its acceptor was handed a connection whose
+                              SYN arrived before that close (a closed acceptor discards its queue)
   c07-accept-without-syn      an accept completed with success although no unmatched SYN had arrived
   c07-handler-twice           the handler of one connect / accept was invoked twice
   c07-refusal-missing         connect to an endpoint nobody listened on never completed (socket untouched, quiescent)
   c07-refusal-error           ... completed with something else than connection_refused
   c07-refusal-delay           connection_refused delivered without a positive delay after the connect call
+                              (exempt: sockets closed / destroyed / re-used before the refusal arrived)
   c07-refusal-usable          after a refusal the socket reports a remote endpoint / transfers data
   c07-connector-remote        connector's remote_endpoint() != the endpoint it dialled
   c07-connector-local         connector's local_endpoint() is not its real bound endpoint
@@ -51,19 +54,49 @@ def written(inc):
     return bytes(out)
 
 
+def _read_matches(rec, src, o):
+    n, kind, val = rec[0], rec[1], rec[2]
+    exp = src[o:o + n]
+    if len(exp) < n: return False
+    if kind == "data": return exp.hex() == val.lower()
+    return "%016x" % fnv(exp) == val.lower()
+
+
+def _tiling(reads, src):
+    """is there an order in which the reads consumed a prefix of src? (reads outstanding at once complete in an
+    order the trace does not show); bounded search"""
+    budget = [4000]
+    def go(o, rest):
+        if not rest: return True
+        budget[0] -= 1
+        if budget[0] < 0: return True           # undecided within the budget: no verdict
+        tried = set()
+        for i, r in enumerate(rest):
+            key = (r[0], r[1], r[2])
+            if key in tried: continue
+            tried.add(key)
+            if _read_matches(r, src, o) and go(o + r[0], rest[:i] + rest[i + 1:]): return True
+        return False
+    return go(0, list(reads))
+
+
 def check_reads(inc, src):
     """reads of inc against the byte string src; returns None or a description"""
     o = 0
     for (n, kind, val, pos, where) in sorted(inc.reads, key=lambda r: r[3]):
         exp = src[o:o + n]
+        bad = None
         if len(exp) < n:
-            return "%s (%s) returned %d bytes at stream position %d but the peer wrote only %d bytes in all" % (where, inc.sock, n, o, len(src)), o, n, kind, val
-        if kind == "data":
+            bad = "%s (%s) returned %d bytes at stream position %d but the peer wrote only %d bytes in all" % (where, inc.sock, n, o, len(src))
+        elif kind == "data":
             if exp.hex() != val.lower():
-                return "%s (%s) returned %s at stream position %d, the peer wrote %s there" % (where, inc.sock, val[:32], o, exp.hex()[:32]), o, n, kind, val
+                bad = "%s (%s) returned %s at stream position %d, the peer wrote %s there" % (where, inc.sock, val[:32], o, exp.hex()[:32])
         else:
             if "%016x" % fnv(exp) != val.lower():
-                return "%s (%s) returned %d bytes with digest %s at stream position %d, the peer's bytes there have digest %016x" % (where, inc.sock, n, val, o, fnv(exp)), o, n, kind, val
+                bad = "%s (%s) returned %d bytes with digest %s at stream position %d, the peer's bytes there have digest %016x" % (where, inc.sock, n, val, o, fnv(exp))
+        if bad:
+            if inc.concurrent and _tiling(sorted(inc.reads, key=lambda r: r[3]), src): return None
+            return bad, o, n, kind, val
         o += n
     return None
 
@@ -165,6 +198,8 @@ def _check(impl, scn_text, an=None):
         F.append(("c07-refusal-usable", "%s transferred %d bytes by %s after its connect to %s was refused (trace line %d)" % (inc.sock, n, kind, fmt_ep(inc.dialled), pos)))
 
     # ---------------------------------------------------------------- pairing
+    closes_of = {}
+    for a in an.accs: closes_of.setdefault(a.name, []).extend(a.closes)
     for comp in an.completions:
         a = comp.acc
         if comp.how == "out-of-order":
@@ -174,6 +209,9 @@ def _check(impl, scn_text, an=None):
         elif comp.how == "duplicate":
             F.append(("c07-accept-duplicate", "%s: accept completing at t=%d (handler %s) reports peer %s whose connection was already handed to the accept completing at t=%d" % (
                 a.name, comp.t, comp.op.h, fmt_ep(comp.dup.frm), comp.dup.matched.t)))
+        elif comp.arrival is not None and not comp.arrival.synthetic and any(comp.arrival.pos < p < comp.op.pos for p in closes_of.get(a.name, [])):
+            F.append(("c07-accept-stale", "%s: accept called at t=%d (handler %s) was handed the connection from %s whose SYN arrived at t=%d, before the acceptor was closed: closing discards the connections still queued" % (
+                a.name, comp.op.t, comp.op.h, fmt_ep(comp.arrival.frm), comp.arrival.t)))
         elif comp.how == "no-syn":
             F.append(("c07-accept-without-syn", "%s: accept (handler %s) completed with success at t=%d but no unaccepted SYN had arrived at the acceptor" % (a.name, comp.op.h, comp.t)))
     if an.quiescent:
@@ -237,10 +275,9 @@ def _check(impl, scn_text, an=None):
                 F.append(("c07-accept-peer", "%s (accepted by %s, handler %s): remote endpoint reads %s; the connector %s is bound to %s, seen through its route as %s" % (
                     inc.sock, comp.acc.name, comp.op.h, fmt_ep(e), c.sock if c else "?", fmt_ep(c.local_known) if c and c.local_known else "?", fmt_ep(exp_peer))))
                 break
-        misuse = any(arr.pos < p < comp.pos for p in an.reopened.get(comp.acc.name, []))
         for (pos, ctx, val) in inc.locals:
             e = parse_ep(val)
-            if e is not None and exp_local is not None and e != exp_local and not misuse:
+            if e is not None and exp_local is not None and e != exp_local:
                 F.append(("c07-accepted-local", "%s (accepted by %s, handler %s): local endpoint reads %s, the connector dialled %s" % (inc.sock, comp.acc.name, comp.op.h, val, fmt_ep(exp_local))))
                 break
         for (what, lst) in (("local", inc.locals), ("remote", inc.remotes)):
